@@ -357,19 +357,19 @@ func c19(c *core.Ctx, r *core.Report) {
 
 	rule(r, "C19.R2", "view data provenance: every count/statistic key of Result.Summary and Result.Progress is fed from the matching path of the result's stored snapshot; Failed/Error from the same receiver", func() {
 		want := map[string]string{
-			"SuccessfulIterationCount":              "$r.snapshot.SuccessfulIterationDurations.Count",
-			"FailedIterationCount":                  "$r.snapshot.FailedIterationDurations.Count",
-			"DroppedIterationCount":                 "$r.snapshot.DroppedIterationCount",
-			"SuccessfulIterationDurations":          "$r.snapshot.SuccessfulIterationDurations",
-			"FailedIterationDurations":              "$r.snapshot.FailedIterationDurations",
-			"SuccessfulIterationDurationsForPeriod": "$r.snapshot.SuccessfulIterationDurationsForPeriod",
-			"Period":                                "$r.snapshot.Period",
-			"Iterations":                            "(*internal/progress.Snapshot).Iterations($r.snapshot)",
-			"IterationsStarted":                     "(*internal/progress.Snapshot).IterationsStarted($r.snapshot)",
-			"Failed":                                "(*internal/run.Result).Failed($r)",
-			"Error":                                 "(*internal/run.Result).Error($r)",
-			"Duration":                              "(*internal/run.Result).duration($r)",
-			"LogFilePath":                           "$r.LogFilePath",
+			"SuccessfulIterationCount":              "$recv.snapshot.SuccessfulIterationDurations.Count",
+			"FailedIterationCount":                  "$recv.snapshot.FailedIterationDurations.Count",
+			"DroppedIterationCount":                 "$recv.snapshot.DroppedIterationCount",
+			"SuccessfulIterationDurations":          "$recv.snapshot.SuccessfulIterationDurations",
+			"FailedIterationDurations":              "$recv.snapshot.FailedIterationDurations",
+			"SuccessfulIterationDurationsForPeriod": "$recv.snapshot.SuccessfulIterationDurationsForPeriod",
+			"Period":                                "$recv.snapshot.Period",
+			"Iterations":                            "(*internal/progress.Snapshot).Iterations($recv.snapshot)",
+			"IterationsStarted":                     "(*internal/progress.Snapshot).IterationsStarted($recv.snapshot)",
+			"Failed":                                "(*internal/run.Result).Failed($recv)",
+			"Error":                                 "(*internal/run.Result).Error($recv)",
+			"Duration":                              "(*internal/run.Result).duration($recv)",
+			"LogFilePath":                           "$recv.LogFilePath",
 		}
 		n := 0
 		for _, name := range []string{"Result.Summary", "Result.Progress"} {
@@ -537,6 +537,9 @@ func c19(c *core.Ctx, r *core.Report) {
 	rule(r, "C19.R4", "structured logs: slog key k of iteration_stats is bound to parameter k; `started` falls back to successful+failed+dropped only when it is 0; ResultData.Log / ProgressData.Log pass the fields those parameters mean", func() {
 		g := c.MustFn("internal/log", "IterationStatsGroup")
 		n := 0
+		// the meaning of each parameter is the slog key it is logged under, whatever the parameter is called
+		roleOf := map[*ssa.Parameter]string{}
+		var startedCall ssa.CallInstruction
 		for _, call := range an.AllCalls(g) {
 			t := an.Callee(call)
 			if t == nil || t.Pkg == nil || t.Pkg.Pkg.Path() != "log/slog" || len(call.Common().Args) != 2 {
@@ -551,38 +554,75 @@ func c19(c *core.Ctx, r *core.Report) {
 				continue
 			}
 			n++
+			if key == "started" {
+				startedCall = call
+				continue
+			}
+			v := call.Common().Args[1]
+			prm, isParam := v.(*ssa.Parameter)
+			if isParam && prm.Parent() == g && roleOf[prm] == "" {
+				roleOf[prm] = key
+				r.OK("IterationStatsGroup#"+key, an.Pos(c, call), "%s ← parameter #%d", key, an.ParamIndex(prm))
+			} else {
+				r.Violation("IterationStatsGroup#"+key, an.Pos(c, call), "slog key %s is bound to %s, not to a parameter of its own", key, an.D().Of(v))
+			}
+		}
+		if startedCall != nil {
+			call := startedCall
 			v := call.Common().Args[1]
 			d := an.D().Of(v)
-			if key == "started" {
-				// phi($started | sum) with the sum edge guarded by started == 0
-				phi, isPhi := v.(*ssa.Phi)
-				okS := false
-				if isPhi {
-					okS = true
-					for i, e := range phi.Edges {
-						if _, isParam := e.(*ssa.Parameter); isParam && an.D().Of(e) == "$started" {
-							continue
+			// phi(started | sum) with the sum edge guarded by started == 0
+			var sp *ssa.Parameter
+			okS := false
+			if phi, isPhi := v.(*ssa.Phi); isPhi {
+				okS = true
+				for _, e := range phi.Edges {
+					if prm, isParam := e.(*ssa.Parameter); isParam && roleOf[prm] == "" {
+						sp = prm
+					}
+				}
+				for i, e := range phi.Edges {
+					if e == ssa.Value(sp) && sp != nil {
+						continue
+					}
+					// the sum of the three outcome counts, each once
+					leaves := map[string]int{}
+					pure := true
+					var walk func(x ssa.Value)
+					walk = func(x ssa.Value) {
+						if bo, isBin := x.(*ssa.BinOp); isBin && bo.Op == token.ADD {
+							walk(bo.X)
+							walk(bo.Y)
+							return
 						}
-						ed := an.D().Of(e)
-						sum := strings.Contains(ed, "$successful") && strings.Contains(ed, "$failed") && strings.Contains(ed, "$dropped") && !strings.ContainsAny(ed, "*/-")
-						guard := false
-						pred := phi.Block().Preds[i]
-						for _, gg := range an.GuardsOf(pred) {
-							if an.D().Of(gg.Cond) == "($started == 0)" && gg.Polarity {
+						if prm, isParam := x.(*ssa.Parameter); isParam && roleOf[prm] != "" {
+							leaves[roleOf[prm]]++
+							return
+						}
+						pure = false
+					}
+					walk(e)
+					sum := pure && len(leaves) == 3 && leaves["successful"] == 1 && leaves["failed"] == 1 && leaves["dropped"] == 1
+					guard := false
+					pred := phi.Block().Preds[i]
+					for _, gg := range an.GuardsOf(pred) {
+						if bo, isBin := gg.Cond.(*ssa.BinOp); isBin && bo.Op == token.EQL && sp != nil && bo.X == ssa.Value(sp) && gg.Polarity {
+							if k, isK := constInt(bo.Y); isK && k == 0 {
 								guard = true
 							}
 						}
-						if !sum || !guard {
-							okS = false
-						}
 					}
-				} else {
-					okS = d == "$started"
+					if !sum || !guard {
+						okS = false
+					}
 				}
-				r.Check(okS, "IterationStatsGroup#started", an.Pos(c, call), "started ← parameter, or the sum of outcomes only when 0", "the logged `started` is "+d+": it is replaced by something other than `sum when started == 0`, so the structured summary can state a different number than the result")
-				continue
+			} else if prm, isParam := v.(*ssa.Parameter); isParam && prm.Parent() == g && roleOf[prm] == "" {
+				okS, sp = true, prm
 			}
-			r.Check(d == "$"+key, "IterationStatsGroup#"+key, an.Pos(c, call), key+" ← parameter "+key, "slog key "+key+" is bound to "+d)
+			if okS && sp != nil {
+				roleOf[sp] = "started"
+			}
+			r.Check(okS && sp != nil, "IterationStatsGroup#started", an.Pos(c, call), "started ← parameter, or the sum of outcomes only when 0", "the logged `started` is "+d+": it is replaced by something other than `sum when started == 0`, so the structured summary can state a different number than the result")
 		}
 		r.Floor("slog attributes of iteration_stats", n, 5)
 		for _, name := range []string{"ResultData.Log", "ProgressData.Log"} {
@@ -593,14 +633,18 @@ func c19(c *core.Ctx, r *core.Report) {
 				}
 				for i, p := range g.Params {
 					d := an.D().Of(call.Common().Args[i])
-					key := name + "#" + p.Name()
+					role := roleOf[p]
+					if role == "" {
+						role = p.Name()
+					}
+					key := name + "#" + role
 					switch {
-					case p.Name() == "period":
-						r.Check(d == "$d.Duration" || d == "$d.Period", key, an.Pos(c, call), "period ← "+d, "period is fed from "+d)
-					case p.Name() == "started" && name == "ProgressData.Log":
+					case role == "period":
+						r.Check(d == "$recv.Duration" || d == "$recv.Period", key, an.Pos(c, call), "period ← "+d, "period is fed from "+d)
+					case role == "started" && name == "ProgressData.Log":
 						r.Check(d == "0", key, an.Pos(c, call), "progress lines let started default to the sum", "progress started is "+d)
 					default:
-						r.Check(strings.HasPrefix(d, "$d.") && strings.Contains(strings.ToLower(d), p.Name()), key, an.Pos(c, call), p.Name()+" ← "+d, "parameter "+p.Name()+" of the iteration_stats group receives "+d+": the structured log swaps counts")
+						r.Check(strings.HasPrefix(d, "$recv.") && strings.Contains(strings.ToLower(d), role), key, an.Pos(c, call), role+" ← "+d, "the `"+role+"` parameter of the iteration_stats group receives "+d+": the structured log swaps counts")
 					}
 				}
 			}
